@@ -1361,8 +1361,13 @@ class Translator:
         out = {}
         _, b = member(["void", "check", "("], "ParametersSet::check", r"")
         out["check"] = self.cbody(b, {"what": "check"})
-        (ref,), b = member(["void", "checkTypes", "("], "ParametersSet::checkTypes", r"const ParametersSet & (\w+)")
-        out["check_types"] = self.cbody(b, {"what": "checkTypes", "argset": ref})
+        if find_seq(cls, ["void", "checkTypes", "("]) < 0:
+            # the tree before repair F27: no up-front type test at all
+            out["check_types"] = ("CsSkip",)
+            self.notes.append("ParametersSet::checkTypes does not exist in this tree")
+        else:
+            (ref,), b = member(["void", "checkTypes", "("], "ParametersSet::checkTypes", r"const ParametersSet & (\w+)")
+            out["check_types"] = self.cbody(b, {"what": "checkTypes", "argset": ref})
         (pn,), b = member(["void", "add", "("], "ParametersSet::add", r"const Parameter & (\w+)")
         out["add"] = self.cbody(b, {"what": "add", "param": pn})
         (pg,), b = member(["void", "merge", "("], "ParametersSet::merge", r"const ParametersSet & (\w+)")
@@ -1429,6 +1434,8 @@ class Translator:
             (ps, r"(?:inline )?CheckedParameter Parameter :: checked \( \) \{ return CheckedParameter \( \* this \) ; \}", "Parameter::checked"),
             (vk, r"(?:inline )?bool isCondition \( F < Q > cond \) const \{ Q value = getValue < Q > \( \) ; return cond \( value \) ; \}", "ValueKeeper::isCondition"),
         ]:
+            if what.endswith("hasSameTypeAs") and out["check_types"] == ("CsSkip",):
+                continue                    # the tree before repair F27 has neither checkTypes nor hasSameTypeAs
             if not re.search(pat, text):
                 fail("%s: shape not understood (the model takes one policy object per C++ type as the type identity)" % what)
         return out
